@@ -364,7 +364,7 @@ func (v *Verifier) enumerate(states []*State, fn *ssa.Function, c *Contract, spe
 	}
 	var param *ssa.Parameter
 	for _, p := range fn.Params {
-		if p.Name() == f[0] {
+		if p.Name() == f[0] || p.Name() == renamesOf(v.P, fn)[f[0]] {
 			param = p
 		}
 	}
